@@ -33,8 +33,10 @@ class SubSuite:
                 self.record.setdefault("stopped_early", []).append(self.w)
                 break
             PlaceHolder("w%d.t%d" % (self.w, n), outcome=["addSuccess", "addFailure"][n % 2]).run(result)
-        if self.broken:
+        if self.broken == 1:
             raise RuntimeError("sub-suite %d is broken" % self.w)
+        if self.broken == 2:
+            raise SystemExit(3)          # e.g. a test calling sys.exit(): ends the worker thread, nothing to report
 
     def __hash__(self):
         return id(self)
@@ -102,7 +104,8 @@ class CallerStream(doubles.StreamResult):
 
 
 def run_suite(stream, nworkers, t0, t1, broken, fkind, fpos, schedule, routes=0):
-    """fkind: 0 none; 1 caller's result raises at its fpos-th call; 2 make_tests raises after yielding fpos
+    """broken: 0 none; 1, 2: worker 0 / 1 raises RuntimeError from run(); 3, 4: worker 0 / 1 ends with SystemExit.
+    fkind: 0 none; 1 caller's result raises at its fpos-th call; 2 make_tests raises after yielding fpos
     sub-suites; 3 KeyboardInterrupt out of the caller's fpos-th queue.get()."""
     pos = [0]
 
@@ -116,7 +119,11 @@ def run_suite(stream, nworkers, t0, t1, broken, fkind, fpos, schedule, routes=0)
     sched = Sched(chooser)
     record = {}
     ntests = [t0, t1][:nworkers]
-    subs = [SubSuite(sched, w, ntests[w], broken == w + 1, record) for w in range(nworkers)]
+    exits = broken - 2 if broken >= 3 else 0          # worker exits+... (1-based) ends with SystemExit
+    if broken >= 3:
+        broken = 0
+    subs = [SubSuite(sched, w, ntests[w], 1 if broken == w + 1 else (2 if exits == w + 1 else 0), record)
+            for w in range(nworkers)]
 
     def tests_iter():
         for w, s in enumerate(subs):
@@ -185,9 +192,11 @@ def run_suite(stream, nworkers, t0, t1, broken, fkind, fpos, schedule, routes=0)
     finally:
         ts_mod.threading, ts_mod.Queue = saved
         _real.TestControl.stop, _real.ThreadsafeForwardingResult.stop = saved_stop
-    for tid, e in sched.errors.items():
-        problems.append("thread %d died with %r" % (tid, e))
     runs = record.get("runs", [])
+    for tid, e in sched.errors.items():
+        if exits and isinstance(e, SystemExit) and (exits - 1, tid) in runs:
+            continue          # the worker that was made to end with SystemExit: its thread just ends (as threading does)
+        problems.append("thread %d died with %r" % (tid, e))
     started = [w for w, _ in runs]
     # ---- expectations ------------------------------------------------------------------------------------
     aborted = fkind in (1, 2, 3) and ("raised" in outcome)
@@ -288,7 +297,7 @@ def h_suite(stream: int, nworkers: int, t0: int, t1: int, broken: int, fkind: in
             s10: int, s11: int, s12: int, s13: int, depth: int, routes: int) -> bool:
     """
     pre: 0 <= routes < 3
-    pre: 0 <= stream < 2 and 1 <= nworkers <= 2 and 0 <= t0 <= 2 and 0 <= t1 <= 2 and 0 <= broken <= 2
+    pre: 0 <= stream < 2 and 1 <= nworkers <= 2 and 0 <= t0 <= 2 and 0 <= t1 <= 2 and 0 <= broken <= 4
     pre: 0 <= fkind < 4 and 0 <= fpos < 12 and 0 <= depth <= 14
     pre: 0 <= s0 < 3 and 0 <= s1 < 3 and 0 <= s2 < 3 and 0 <= s3 < 3 and 0 <= s4 < 3 and 0 <= s5 < 3 and 0 <= s6 < 3
     pre: 0 <= s7 < 3 and 0 <= s8 < 3 and 0 <= s9 < 3 and 0 <= s10 < 3 and 0 <= s11 < 3 and 0 <= s12 < 3 and 0 <= s13 < 3
@@ -300,7 +309,9 @@ def h_suite(stream: int, nworkers: int, t0: int, t1: int, broken: int, fkind: in
             return True
         v["t0"] = ch.sel("t0", t0, 3)
         v["t1"] = ch.sel("t1", t1, 3) if v["nworkers"] == 2 else 0
-        v["broken"] = ch.sel("broken", broken, v["nworkers"] + 1)
+        v["broken"] = ch.sel("broken", broken, 5)
+        if v["broken"] and (v["broken"] - 1) % 2 >= v["nworkers"]:
+            raise ch.Prune()
         v["fkind"] = ch.sel("fkind", fkind, 4)
         v["fpos"] = ch.sel("fpos", fpos, 12) if v["fkind"] else 0
         dp = ch.sel("depth", depth, 15)
@@ -326,6 +337,7 @@ def _shards(tier):
         for st in (0, 1):
             out.append(({"stream": st, "nworkers": 2, "t0": 1, "t1": 1, "broken": 0, "fkind": 0, "depth": 8, "routes": 0}, 1800))
             out.append(({"stream": st, "nworkers": 2, "t0": 1, "t1": 0, "broken": 1, "fkind": 0, "depth": 7}, 1800))
+            out.append(({"stream": st, "nworkers": 2, "t0": 1, "t1": 1, "broken": 4, "fkind": 0, "depth": 6}, 1800))
             out.append(({"stream": st, "nworkers": 1, "t0": 2, "broken": 0, "fkind": 0, "depth": 8}, 1800))
             for fp in (0, 2, 3):
                 out.append(({"stream": st, "nworkers": 2, "t0": 1, "t1": 1, "broken": 0, "fkind": 1, "fpos": fp, "depth": 6}, 1800))
@@ -340,7 +352,7 @@ def _shards(tier):
         for st in (0, 1):
             for a in range(3):
                 for b in range(3):
-                    for br in range(3):
+                    for br in range(5):
                         out.append(({"stream": st, "nworkers": 2, "t0": a, "t1": b, "broken": br, "fkind": 0, "depth": 10, "routes": 0}, 3000))
             for fk, rng in ((1, range(10)), (2, range(3)), (3, range(5))):
                 for fp in rng:
@@ -362,9 +374,9 @@ HARNESSES = [
             bounds={"quick": "ConcurrentTestSuite and ConcurrentStreamTestSuite with threading/Queue replaced by scheduler-aware fakes; the "
                              "caller of run() is itself a scheduled thread. Symbolic schedule: the solver picks the next runnable thread at "
                              "each of the first k choice points (k = 6..8). Configurations: 2 workers x 1 test each (stream suite also with both workers sharing one route code, a string or None); a worker whose run() "
-                             "raises; 1 worker x 2 tests; faults: the caller's result raises at its call/event 0, 2, 3; make_tests raises "
+                             "raises; a worker that ends with SystemExit after its test; 1 worker x 2 tests; faults: the caller's result raises at its call/event 0, 2, 3; make_tests raises "
                              "after yielding 0, 1, 2 sub-suites; KeyboardInterrupt out of the caller's 1st / 2nd queue.get()",
-                    "thorough": "every (t0, t1, broken) in 0..2 x 0..2 x {none, worker 0, worker 1} with k = 10; every fault position with k = 8..9"},
+                    "thorough": "every (t0, t1, broken) in 0..2 x 0..2 x {none, worker 0 / 1 raises, worker 0 / 1 ends with SystemExit} with k = 10; every fault position with k = 8..9"},
             rule="one schedule per path; non-trivial = at least one point with more than one runnable thread",
             twin_fix={"stream": 0, "nworkers": 2, "t0": 1, "t1": 1, "broken": 0, "fkind": 0, "depth": 3, "routes": 0},
             describe=_describe,
